@@ -149,7 +149,7 @@ def exec (P : Prims) : Code → Env → Option (List Entry)
           (if vals.length = binders.length then execs P body (bindElems binders vals env) else none)
         else guardPush P env none false push
       | _ => none
-  | .structNamed _ v path fields rest body push, env =>
+  | .structNamed _ v path fields _ rest body push, env =>
     (evalV P env v).bind fun x =>
       match x.v with
       | .adt ctor names _ =>
